@@ -120,8 +120,12 @@ func oracleC07(r *rig, res *scnResult) {
 					}
 				}
 			}
-			if !n.closedByRemote() {
+			// (a node that hung up right after sending is disconnected already; it must still be banned)
+			if !n.closedByRemote() && !n.isClosed() {
 				fail("c07-forbidden-sender-not-disconnected", fmt.Sprintf("node %d delivered a forbidden header and is still connected", i), "connection closed by the service", "open")
+			}
+			if n.isClosed() && !n.closedByRemote() {
+				res.Info["forbidden-sender-hung-up"] = true
 			}
 			if s.Engine == "legacy" {
 				banned := false
@@ -193,7 +197,7 @@ func oracleC07(r *rig, res *scnResult) {
 				when = "while that checkpoint was still pending (its header had not reached the service; the tip stands on another contradicting branch)"
 				res.Info["contradiction-at-pending-checkpoint-above-tip"] = true
 			}
-			if !n.closedByRemote() {
+			if !n.closedByRemote() && !n.isClosed() { // (a node that hung up by itself is gone as well)
 				fail(sigDisc, fmt.Sprintf("node %d delivered a header that differs from the checkpoint at height %d, %s, and is still connected", i, hc, when), "connection closed by the service", "open")
 			}
 			if q := requestsAfter(hist, k); q > 0 {
@@ -746,6 +750,59 @@ func genMismatch(rng *rand.Rand, o genOpts, engine string) *scn {
 
 
 
+
+// genHitRun: a node delivers a headers message that holds a forbidden header (at any batch position) and hangs up at
+// once, before the single-threaded manager gets to the message (step `hitrun`). It must still be banned. The node is
+// either a by-stander (an honest node is the sync peer and has synced part or all of the chain) or the sync peer itself
+// (it never answers its getheaders: the batch it pushes is its "answer").
+func genHitRun(rng *rand.Rand, o genOpts) *scn {
+	L := 5 + rng.Intn(o.MaxLen-4)
+	s := &scn{Engine: "legacy", Sched: "serial", Seed: rng.Int63n(1 << 30), Salt: rng.Uint32(), Parents: linearParents(L)}
+	hx := 1 + rng.Intn(L)
+	x := len(s.Parents)
+	s.Parents = append(s.Parents, hx-2)
+	desc := 1 + rng.Intn(3)
+	for j := 0; j < desc; j++ {
+		s.Parents = append(s.Parents, len(s.Parents)-1)
+	}
+	s.Bits = make([]uint32, len(s.Parents))
+	for i := range s.Bits {
+		s.Bits[i] = defaultBits
+	}
+	s.Forbid = []int{x}
+	s.Cps = []int{L - 1}
+	if rng.Intn(2) == 0 {
+		s.Cps = []int{rng.Intn(L)}
+	}
+	evilPath := append(seq(0, hx-1), seq(x, x+1+desc)...)
+	// the batch: up to 3 headers before the forbidden one, up to `desc` after it
+	a := hx - 1 - rng.Intn(minInt(hx-1, 3)+1)
+	b := hx + rng.Intn(desc+1)
+	batch := append([]int{}, evilPath[a:b]...)
+	s.Nodes = append(s.Nodes, scnNode{Path: evilPath, Pos: len(evilPath), Cap: 2000, Dir: "out", Honest: false, CloseAt: -1, StallAt: 0})
+	s.Nodes = append(s.Nodes, scnNode{Path: seq(0, L), Pos: L, Cap: capAlphabet[rng.Intn(len(capAlphabet))], Dir: "out", Honest: true, CloseAt: -1, StallAt: -1})
+	if rng.Intn(3) == 0 {
+		s.Nodes[0].Dir = "in"
+	}
+	if rng.Intn(2) == 0 {
+		// by-stander
+		// (the honest node has delivered its whole chain first: the headers before the forbidden one are known, not
+		// unconnected)
+		s.Steps = append(s.Steps, scnStep{Kind: "connect", Node: 1}, scnStep{Kind: "run"})
+		s.Steps = append(s.Steps, scnStep{Kind: "connect", Node: 0}, scnStep{Kind: "hitrun", Node: 0, Idx: batch}, scnStep{Kind: "run"})
+	} else {
+		// the sync peer itself: the table holds genesis only, the batch starts at height 1
+		batch = append([]int{}, evilPath[0:b]...)
+		// (no checkpoint inside the batch: a batch that is cut short by the ban after it has crossed a checkpoint leaves
+		// the cursor behind the tip — the stale-cursor behaviour of C06_checkpoint_cursor_counterexample, not this shape's point)
+		s.Cps = []int{L - 1}
+		s.Steps = append(s.Steps, scnStep{Kind: "connect", Node: 0}, scnStep{Kind: "run"}, scnStep{Kind: "connect", Node: 1},
+			scnStep{Kind: "hitrun", Node: 0, Idx: batch}, scnStep{Kind: "run"})
+	}
+	timePasses(s)
+	return s
+}
+
 // genSecondOffender: two misbehaving nodes contradict the SAME pending checkpoint with different headers. The first
 // one's header X (height = checkpoint height) is stored as the tip before it is compared, the node is dropped. The
 // second node then answers with a sibling Y of X (same height, ties with X: stored STALE) followed by 1..2 more
@@ -902,6 +959,11 @@ var c07Corpus = []struct {
 	{"low-work-fork", []string{"c06 engine=legacy cpoff=0 cps=2 init=0,1 forbid= sched=serial seed=1 salt=11",
 		"tree parents=0~5,-1,6,7 bits=20400000,20400000,20400000,20400000,20400000,20400000,21008000,21008000,21008000",
 		"node path=6..8 pos=3 cap=2000 dir=out honest=0", "step connect 0", "step run"}},
+	// hit and run: the honest node 1 is the sync peer; node 0 (a by-stander) sends a headers message whose second header
+	// (#6) is forbidden and hangs up before the manager gets to the message: it must still be banned
+	{"hit-and-run", []string{"c06 engine=legacy cpoff=0 cps=5 init= forbid=6 sched=serial seed=1 salt=13", "tree parents=0~5,2,6",
+		"node path=0..2,6,7 pos=5 cap=2000 dir=out honest=0 stallat=0", "node path=0..5 pos=6 cap=2 dir=out honest=1",
+		"step connect 1", "step run", "step connect 0", "step hitrun 0 2,6,7", "step run"}},
 }
 
 // genRunPast: two checkpoints c1 < c2 on the honest chain; the misbehaving node's branch matches c1, forks between them
@@ -971,7 +1033,7 @@ func genRunPast(rng *rand.Rand, o genOpts, engine string) *scn {
 }
 
 func runC07(c *Ctx) error {
-	c.R.Rule = "scenario = honest chain + a misbehaving scripted node whose (otherwise conformant) chain contains a forbidden header at a random height or contradicts a checkpoint, reply caps 1/2/7/2000 and initial stores chosen so that the offending header lands at every batch position; optional second node pushing descendants of the forbidden header unsolicited; a second offender contradicting the same pending checkpoint with a sibling header that is stored STALE, a low-work fork (easier bits) reaching the pending checkpoint height entirely STALE; recovery scenarios (the violator's header exactly at the pending checkpoint height as last header of its answer, a stand-by honest node with a long chain and a large cap); nodes that IGNORE the stop hash and run an answer past a matching checkpoint, the contradiction of the next checkpoint arriving with a later answer (or, rarely, the same one); 1..2 honest nodes; both engines; 0..n checkpoints; serial (trace compared with the Lean model) and free-running scheduling; non-trivial = the offending header was actually delivered"
+	c.R.Rule = "scenario = honest chain + a misbehaving scripted node whose (otherwise conformant) chain contains a forbidden header at a random height or contradicts a checkpoint, reply caps 1/2/7/2000 and initial stores chosen so that the offending header lands at every batch position; optional second node pushing descendants of the forbidden header unsolicited; a node that sends a headers message holding a forbidden header and hangs up before the manager handles it (by-stander or sync peer); a second offender contradicting the same pending checkpoint with a sibling header that is stored STALE, a low-work fork (easier bits) reaching the pending checkpoint height entirely STALE; recovery scenarios (the violator's header exactly at the pending checkpoint height as last header of its answer, a stand-by honest node with a long chain and a large cap); nodes that IGNORE the stop hash and run an answer past a matching checkpoint, the contradiction of the next checkpoint arriving with a later answer (or, rarely, the same one); 1..2 honest nodes; both engines; 0..n checkpoints; serial (trace compared with the Lean model) and free-running scheduling; non-trivial = the offending header was actually delivered"
 	l := newSyncModel(c)
 	defer l.Close()
 	if c.Replay != "" {
@@ -1062,7 +1124,10 @@ func runC07(c *Ctx) error {
 		var s *scn
 		kind := "forbidden"
 		if k := rng.Intn(10); k == 9 {
-			switch rng.Intn(3) {
+			switch rng.Intn(4) {
+			case 3:
+				kind = "hitrun"
+				s = genHitRun(rng, o)
 			case 0:
 				kind = "recover"
 				s = genRecover(rng, o, "legacy")
@@ -1082,7 +1147,7 @@ func runC07(c *Ctx) error {
 		} else {
 			s = genForbidden(rng, o, engine)
 		}
-		name := fmt.Sprintf("%s-%s-%d", kind, engine, i)
+		name := fmt.Sprintf("%s-%s-%d", kind, s.Engine, i)
 		res := runScenario(name, s, oracleC07)
 		if res.Err != nil {
 			res = runScenario(name+"-retry", s, oracleC07)
